@@ -18,6 +18,7 @@ pub fn def() -> PropDef {
         ],
         run,
         replay,
+        minimize: None,
     }
 }
 
